@@ -1,12 +1,27 @@
 theories/Base/Prelude.vo theories/Base/Prelude.glob theories/Base/Prelude.v.beautified theories/Base/Prelude.required_vo: theories/Base/Prelude.v 
 theories/Base/Prelude.vio: theories/Base/Prelude.v 
 theories/Base/Prelude.vos theories/Base/Prelude.vok theories/Base/Prelude.required_vos: theories/Base/Prelude.v 
+theories/Base/Bytes.vo theories/Base/Bytes.glob theories/Base/Bytes.v.beautified theories/Base/Bytes.required_vo: theories/Base/Bytes.v theories/Base/Prelude.vo
+theories/Base/Bytes.vio: theories/Base/Bytes.v theories/Base/Prelude.vio
+theories/Base/Bytes.vos theories/Base/Bytes.vok theories/Base/Bytes.required_vos: theories/Base/Bytes.v theories/Base/Prelude.vos
+theories/Event/Hash.vo theories/Event/Hash.glob theories/Event/Hash.v.beautified theories/Event/Hash.required_vo: theories/Event/Hash.v theories/Base/Prelude.vo theories/Base/Bytes.vo
+theories/Event/Hash.vio: theories/Event/Hash.v theories/Base/Prelude.vio theories/Base/Bytes.vio
+theories/Event/Hash.vos theories/Event/Hash.vok theories/Event/Hash.required_vos: theories/Event/Hash.v theories/Base/Prelude.vos theories/Base/Bytes.vos
+theories/Event/Hash_proofs.vo theories/Event/Hash_proofs.glob theories/Event/Hash_proofs.v.beautified theories/Event/Hash_proofs.required_vo: theories/Event/Hash_proofs.v theories/Base/Prelude.vo theories/Base/Bytes.vo theories/Event/Hash.vo
+theories/Event/Hash_proofs.vio: theories/Event/Hash_proofs.v theories/Base/Prelude.vio theories/Base/Bytes.vio theories/Event/Hash.vio
+theories/Event/Hash_proofs.vos theories/Event/Hash_proofs.vok theories/Event/Hash_proofs.required_vos: theories/Event/Hash_proofs.v theories/Base/Prelude.vos theories/Base/Bytes.vos theories/Event/Hash.vos
 theories/Parse/Dispatch.vo theories/Parse/Dispatch.glob theories/Parse/Dispatch.v.beautified theories/Parse/Dispatch.required_vo: theories/Parse/Dispatch.v theories/Base/Prelude.vo
 theories/Parse/Dispatch.vio: theories/Parse/Dispatch.v theories/Base/Prelude.vio
 theories/Parse/Dispatch.vos theories/Parse/Dispatch.vok theories/Parse/Dispatch.required_vos: theories/Parse/Dispatch.v theories/Base/Prelude.vos
 theories/Parse/Dispatch_proofs.vo theories/Parse/Dispatch_proofs.glob theories/Parse/Dispatch_proofs.v.beautified theories/Parse/Dispatch_proofs.required_vo: theories/Parse/Dispatch_proofs.v theories/Base/Prelude.vo theories/Parse/Dispatch.vo
 theories/Parse/Dispatch_proofs.vio: theories/Parse/Dispatch_proofs.v theories/Base/Prelude.vio theories/Parse/Dispatch.vio
 theories/Parse/Dispatch_proofs.vos theories/Parse/Dispatch_proofs.vok theories/Parse/Dispatch_proofs.required_vos: theories/Parse/Dispatch_proofs.v theories/Base/Prelude.vos theories/Parse/Dispatch.vos
+theories/Generated/C01_gen.vo theories/Generated/C01_gen.glob theories/Generated/C01_gen.v.beautified theories/Generated/C01_gen.required_vo: theories/Generated/C01_gen.v theories/Base/Prelude.vo
+theories/Generated/C01_gen.vio: theories/Generated/C01_gen.v theories/Base/Prelude.vio
+theories/Generated/C01_gen.vos theories/Generated/C01_gen.vok theories/Generated/C01_gen.required_vos: theories/Generated/C01_gen.v theories/Base/Prelude.vos
+theories/Props/C01.vo theories/Props/C01.glob theories/Props/C01.v.beautified theories/Props/C01.required_vo: theories/Props/C01.v theories/Base/Prelude.vo theories/Base/Bytes.vo theories/Event/Hash.vo theories/Event/Hash_proofs.vo theories/Generated/C01_gen.vo
+theories/Props/C01.vio: theories/Props/C01.v theories/Base/Prelude.vio theories/Base/Bytes.vio theories/Event/Hash.vio theories/Event/Hash_proofs.vio theories/Generated/C01_gen.vio
+theories/Props/C01.vos theories/Props/C01.vok theories/Props/C01.required_vos: theories/Props/C01.v theories/Base/Prelude.vos theories/Base/Bytes.vos theories/Event/Hash.vos theories/Event/Hash_proofs.vos theories/Generated/C01_gen.vos
 theories/Props/C14.vo theories/Props/C14.glob theories/Props/C14.v.beautified theories/Props/C14.required_vo: theories/Props/C14.v theories/Base/Prelude.vo theories/Parse/Dispatch.vo theories/Parse/Dispatch_proofs.vo
 theories/Props/C14.vio: theories/Props/C14.v theories/Base/Prelude.vio theories/Parse/Dispatch.vio theories/Parse/Dispatch_proofs.vio
 theories/Props/C14.vos theories/Props/C14.vok theories/Props/C14.required_vos: theories/Props/C14.v theories/Base/Prelude.vos theories/Parse/Dispatch.vos theories/Parse/Dispatch_proofs.vos
